@@ -88,7 +88,7 @@ def run(prop, profile, tier, seed, shards=16, sample=None, tag=None):
                         # a tree on which inputs hang by the dozen would keep the sweep busy for hours
                         # (one minute per confirmation): three confirmed witnesses decide the run
                         stopped_early = True
-                        for o in running:
+                        for o in running + nxt:
                             if o['proc'].poll() is None:
                                 o['proc'].kill()
                                 o['proc'].wait()
